@@ -28,6 +28,13 @@ func (c *Clause) Name() string {
 	return fmt.Sprintf("%s[%d]", c.Kind, c.Ord)
 }
 
+// CallAssert: "assert call <callee> :: expr" - expr (over the function's locals at that point and arg0..argN)
+// must hold whenever the function is about to call the callee (matched by the end of its full name).
+type CallAssert struct {
+	Callee string
+	Clause *Clause
+}
+
 type LoopSpec struct {
 	Invariants  []*Clause
 	Decreases   *Clause
@@ -61,6 +68,7 @@ type Contract struct {
 	Notes     []string
 	Ghosts    []*SpecFunc          // per-application uninterpreted witness functions
 	Callbacks map[string]*Contract // contracts of function-typed parameters (calls through them use these)
+	CallAsserts []*CallAssert      // assertions checked just before calls to a named callee inside this function
 }
 
 // SpecFunc is a pure specification function, expanded as a macro (with body)
@@ -149,7 +157,7 @@ func fullKey(pkgPath, key string) string {
 }
 
 var clauseKinds = map[string]bool{"requires": true, "ensures": true, "exsures": true, "assigns": true,
-	"property": true, "loop": true, "trusted": true, "inline": true, "pure": true, "maypanic": true, "ghost": true, "callback": true, "panics": true, "throws": true, "recovers": true, "mode": true, "note": true, "lemma": true}
+	"property": true, "loop": true, "trusted": true, "inline": true, "pure": true, "maypanic": true, "ghost": true, "callback": true, "panics": true, "throws": true, "recovers": true, "mode": true, "note": true, "lemma": true, "assert": true}
 
 // ParseContractFile reads //@ lines from a Go file (package contracts) or a .spec file (trusted, external).
 func (cs *ContractSet) ParseContractFile(path, pkgPath string, trusted bool) error {
@@ -345,6 +353,20 @@ func (cs *ContractSet) ParseContractFile(path, pkgPath string, trusted bool) err
 				cur.Mode = rest
 			case "note":
 				cur.Notes = append(cur.Notes, rest)
+			case "assert":
+				// assert call <callee> :: expr
+				parts := strings.SplitN(rest, "::", 2)
+				hd := strings.Fields(parts[0])
+				if len(hd) > 0 && hd[0] == "assert" {
+					hd = hd[1:]
+				}
+				if len(parts) != 2 || len(hd) != 2 || hd[0] != "call" {
+					return fmt.Errorf("%s: assert call <callee> :: expr expected", where)
+				}
+				cl := &Clause{Kind: "assert", Where: where, Ord: len(cur.CallAsserts), Label: "call " + hd[1]}
+				cl.Text = strings.TrimSpace(parts[1])
+				cur.CallAsserts = append(cur.CallAsserts, &CallAssert{Callee: hd[1], Clause: cl})
+				lastClause = cl
 			case "callback":
 				// callback <param> requires|ensures|assigns|pure <text>
 				if len(fields) < 3 {
